@@ -57,6 +57,9 @@ pub fn install_quiet_panic_hook() {
             "panic".to_string()
         };
         let loc = info.location().map(|l| format!(" at {}:{}", l.file(), l.line())).unwrap_or_default();
+        if std::thread::current().name() == Some("main") && std::env::var("SYMFROST_QUIET_MAIN").is_err() {
+            eprintln!("panic in main thread: {msg}{loc}");
+        }
         LAST_PANIC.with(|p| *p.borrow_mut() = Some(format!("{msg}{loc}")));
     }));
 }
